@@ -368,7 +368,7 @@ func runC07(tier string) int {
 		"a moved word 'does not fit' when previous line + space + word (+ overlap when the line would show the prompt and anything follows the word) exceeds maxLineLength",
 		"the word/break sequence of a text is known from the generator's atoms; the compiler's own tokeniser is not consulted")
 	return r.Finish(r.Get("evaluations"), r.Get("nontrivial"),
-		"every sequence of <= L atoms (3 plain words, a multi-byte word, 2 control codes incl. one with an inner space, single/double space, \\n \\l \\p \\N, a raw newline) x 2 synthetic fonts (with/without default width, space width 1 and 3) x numLines 1..3 x cursorOverlap {0,1,3,40} x every maxLineLength from 1 to longest line+1, called through the exported FormatText; plus words containing one representative of every Unicode category / non-ASCII white space / combining mark / astral rune / non-ASCII rune of the compiler's source in sequences of <= 3 atoms; plus long texts of K atoms for every K up to the bound in the coverage (3 patterns); plus a cross-product of format() spellings compiled end to end under 4 font config files (numLines missing, maxLineLength missing, an overlap larger than the entry's length, different defaults, a third font); non-trivial = the output contains >= 1 automatic break")
+		"every sequence of <= L atoms (3 plain words, a multi-byte word, 2 control codes incl. one with an inner space, single/double space, \\n \\l \\p \\N, a raw newline) x 2 synthetic fonts (with/without default width, space width 1 and 3) x numLines 1..3 x cursorOverlap {0,1,3,40} x every maxLineLength from 1 to longest line+1, called through the exported FormatText; plus words containing one representative of every Unicode category / non-ASCII white space / combining mark / astral rune / non-ASCII rune of the compiler's source in sequences of <= 3 atoms; plus long texts of K atoms for every K up to the bound in the coverage (3 patterns); plus a cross-product of format() spellings compiled end to end under 5 font config files (two font ids that differ only by case, numLines missing, maxLineLength missing, an overlap larger than the entry's length, different defaults, a third font); non-trivial = the output contains >= 1 automatic break")
 }
 
 // c07EvalSeq makes every call for one atom sequence and judges each result.
@@ -481,6 +481,13 @@ func c07Compiled(r *harness.Run) {
 	cfgs = append(cfgs, parser.FontConfig{DefaultFontID: "f1", Fonts: map[string]parser.Fonts{
 		"f1": {Widths: synthFonts[0].widths, MaxLineLength: 0, NumLines: 2, CursorOverlapWidth: 3},
 		"f2": {Widths: synthFonts[1].widths, MaxLineLength: 2, NumLines: 3, CursorOverlapWidth: 4},
+	}})
+	// two font ids that differ only by letter case (ids are exact names)
+	cfgs = append(cfgs, parser.FontConfig{DefaultFontID: "F2", Fonts: map[string]parser.Fonts{
+		"F2": {Widths: synthFonts[0].widths, MaxLineLength: 9, NumLines: 2, CursorOverlapWidth: 1},
+		"f2": {Widths: synthFonts[1].widths, MaxLineLength: 14, NumLines: 3, CursorOverlapWidth: 0},
+		"f1": {Widths: synthFonts[1].widths, MaxLineLength: 6, NumLines: 1, CursorOverlapWidth: 2},
+		"f3": {Widths: synthFonts[0].widths, MaxLineLength: 11, NumLines: 2, CursorOverlapWidth: 0},
 	}})
 	for ci := range cfgs {
 		c07CompiledWith(r, dir, ci, cfgs[ci])
